@@ -939,6 +939,45 @@ fn scale(tier: Tier, totals: &mut Totals) {
             }
         }
     }
+    // an item is data, whatever it reads like: texts that look like options of the commands the library's
+    // own scripts use (-i, --ignore-case, -r, --recursive, --copy ...), words of the language, numbers,
+    // brackets, blanks - held in an array, a map and a set, looked for, joined, copied, listed
+    {
+        let items = [
+            "-i", "--ignore-case", "-I", "-r", "--recursive", "-c", "--copy", "--prefix", "--collection", "-", "--", "-1", "or", "and", "not", "true", "false", "0", "no", "(", ")", "a b", " ", "=", "handle:x", "std::set", "end", "in", "#", ";",
+        ];
+        for it in items {
+            let mut text = String::new();
+            text.push_str(&crate::render::line(Some("v"), "set", &[it]));
+            text.push_str("\na = array first ${v} last\nidx = array_contains ${a} ${v}\nidx_last = array_contains ${a} last\nmiss = array_contains ${a} nothing\njoined = array_join ${a} ,\ngot = array_get ${a} 1\nm = map\nmap_put ${m} k1 first\nmap_put ${m} k2 ${v}\nmap_put ${m} ${v} under\nhasv = map_contains_value ${m} ${v}\nhasv_first = map_contains_value ${m} first\nhasv_no = map_contains_value ${m} nothing\nhask = map_contains_key ${m} ${v}\nmg = map_get ${m} ${v}\nmg2 = map_get ${m} k2\nsame = equals \"${mg2}\" \"${v}\"\ns = set_new first ${v}\nsc = set_contains ${s} ${v}\nss = set_size ${s}\ns2 = set_from_array ${a}\ns2c = set_contains ${s2} ${v}\ns2n = set_size ${s2}\nc = array_concat ${a} ${a}\ncn = array_length ${c}\ncg = array_get ${c} 4\nsame2 = equals \"${cg}\" \"${v}\"\nlisted = set \"\"\nfor x in ${a}\nlisted = set \"${listed}[${x}]\"\nend\nne = array_is_empty ${a}\nrelease ${a}\nrelease ${m}\nrelease ${s}\nrelease ${s2}\nrelease ${c}");
+            crate::util::scale_case_totals(
+                totals,
+                &format!("awkward-item {:?}", it),
+                &text,
+                &[
+                    ("idx", Some("1".into())),
+                    ("idx_last", Some("2".into())),
+                    ("miss", Some("false".into())),
+                    ("joined", Some(format!("first,{},last", it))),
+                    ("got", Some(it.to_string())),
+                    ("hasv", Some("true".into())),
+                    ("hasv_first", Some("true".into())),
+                    ("hasv_no", Some("false".into())),
+                    ("hask", Some("true".into())),
+                    ("mg", Some("under".into())),
+                    ("same", Some("true".into())),
+                    ("sc", Some("true".into())),
+                    ("ss", Some("2".into())),
+                    ("s2c", Some("true".into())),
+                    ("s2n", Some("3".into())),
+                    ("cn", Some("6".into())),
+                    ("same2", Some("true".into())),
+                    ("listed", Some(format!("[first][{}][last]", it))),
+                    ("ne", Some("false".into())),
+                ],
+            );
+        }
+    }
     // joins of items and separators outside ASCII (the joined text is exactly the items with the
     // separator between them, whatever the bytes)
     {
@@ -1077,7 +1116,7 @@ pub fn replay(case: &Value) -> Result<String, String> {
     Ok(out.join("\n"))
 }
 
-pub const RULE: &str = "explicit-state breadth-first search from the empty handle table: creators (array, range, map, set_new, set_from_array, array_concat, set_to_array, map_keys), every mutator and query of the statement, is_array/is_map/is_set, release and release -r, each given every live handle, a released handle, an unknown text and a text that looks like a handle, indexes {0,1,2,-1,x}, values {a, empty, 'b c', 0 (, false, look-alike handle, e-acute)} and the handle of the collection itself or of the other live collection as array item, set member, map key and map value (release -r follows such references); growing operations are disabled at 2 live handles / length 2 so the space is finite and searched to a fixpoint. Each transition runs the real command, compares its output with the model (vector / map / set per live handle) and then the complete handle table (every collection equal to the model, no other entry) and the variable map (must stay empty). States are de-duplicated on the multiset of collection contents plus the implementation's remaining state. evaluations = transitions; distinct_nontrivial = distinct states. Scale cases (scripts, results computed in Rust): an array / a map / a set with 10/70/300 (thorough 1000, 3000) items built, read at both ends, joined, searched, emptied; as many live handles held by one outer array and taken by a recursive release. Index texts: 23 texts (signs, blanks, fractions, other digits, beyond the machine word) x arrays of 0/1/3 items through array_get / array_set / array_remove against usize parsing. Joins of non-ASCII items and separators. The quick sizes include 4000 items (thorough 20000), with set_from_array and array_concat of the big array. Variadic calls: array_concat with 2, 3, 1, 4, 2 collections in one run, in every rotation, then a failing call and set_from_array. Fixed cases run at the threshold sizes (p-1, p, p+1 around powers of two and ten), each script in a child process. Recursive release: every combination of array / map / set over three and four levels, each holding the handle of the next, released from the top with -r: no level is left, a bystander is The big-array case also builds range 0 n (its length, last item, sum through for/in and array_contains of the last value).";
+pub const RULE: &str = "explicit-state breadth-first search from the empty handle table: creators (array, range, map, set_new, set_from_array, array_concat, set_to_array, map_keys), every mutator and query of the statement, is_array/is_map/is_set, release and release -r, each given every live handle, a released handle, an unknown text and a text that looks like a handle, indexes {0,1,2,-1,x}, values {a, empty, 'b c', 0 (, false, look-alike handle, e-acute)} and the handle of the collection itself or of the other live collection as array item, set member, map key and map value (release -r follows such references); growing operations are disabled at 2 live handles / length 2 so the space is finite and searched to a fixpoint. Each transition runs the real command, compares its output with the model (vector / map / set per live handle) and then the complete handle table (every collection equal to the model, no other entry) and the variable map (must stay empty). States are de-duplicated on the multiset of collection contents plus the implementation's remaining state. evaluations = transitions; distinct_nontrivial = distinct states. Scale cases (scripts, results computed in Rust): an array / a map / a set with 10/70/300 (thorough 1000, 3000) items built, read at both ends, joined, searched, emptied; as many live handles held by one outer array and taken by a recursive release. Index texts: 23 texts (signs, blanks, fractions, other digits, beyond the machine word) x arrays of 0/1/3 items through array_get / array_set / array_remove against usize parsing. Joins of non-ASCII items and separators. The quick sizes include 4000 items (thorough 20000), with set_from_array and array_concat of the big array. Variadic calls: array_concat with 2, 3, 1, 4, 2 collections in one run, in every rotation, then a failing call and set_from_array. Fixed cases run at the threshold sizes (p-1, p, p+1 around powers of two and ten), each script in a child process. Recursive release: every combination of array / map / set over three and four levels, each holding the handle of the next, released from the top with -r: no level is left, a bystander is The big-array case also builds range 0 n (its length, last item, sum through for/in and array_contains of the last value). Awkward items: 30 item texts that read like options (-i, --ignore-case, -r, --copy ...), words of the language, numbers, brackets, blanks, held in an array, a map (as value and as key) and a set: array_contains, array_join, array_get, map_contains_value, map_contains_key, map_get, set_contains, set_from_array, array_concat, for/in listing, array_is_empty give what the reference gives.";
 pub const ASSUMPTIONS: &[&str] = &["listings whose order the documentation does not fix (map_keys, set_to_array) are compared as multisets and then sorted in place by the harness", "random handle names are opaque; a collision of two 20-character random names is outside the model", "operations are run through run_instruction with already-bound arguments"];
 pub const EXHAUSTIVE: bool = true;
 pub const WALL_CAP_S: (u64, u64) = (50, 1500);
